@@ -73,11 +73,19 @@ func Load(verifDir, repo string, hfs []HarnessFile, extraPkgs []string, buildFil
 		overlay[hf.Virtual] = data
 		dirs["./"+hf.PkgDir] = true
 	}
-	rt, err := os.ReadFile(filepath.Join(verifDir, "rt", "verifrt", "verifrt.go"))
+	rtEnts, err := os.ReadDir(filepath.Join(verifDir, "rt", "verifrt"))
 	if err != nil {
 		return nil, err
 	}
-	overlay[filepath.Join(repo, "internal", "verifrt", "verifrt.go")] = rt
+	for _, e := range rtEnts {
+		if strings.HasSuffix(e.Name(), ".go") {
+			data, err := os.ReadFile(filepath.Join(verifDir, "rt", "verifrt", e.Name()))
+			if err != nil {
+				return nil, err
+			}
+			overlay[filepath.Join(repo, "internal", "verifrt", e.Name())] = data
+		}
+	}
 	// Go-written library models
 	mdir := filepath.Join(verifDir, "rt", "verifmodels")
 	if ents, err := os.ReadDir(mdir); err == nil {
